@@ -1984,7 +1984,9 @@ pub mod verif_hooks {
             "resetmasks" => b.reset_masks(u(0) as u32),
             "ensure" => ret = b.ensure(u(0)) as u64,
             "room" => ret = b.make_room_for(u(0), u(1)) as u64,
-            "shiftfwd" => b.shift_forward(u(0)),
+            "shiftfwd" => {
+                let _ = b.shift_forward(u(0));
+            }
             "enter" => b.enter(),
             "leave" => b.leave(),
             "clear" => b.clear(),
